@@ -233,3 +233,38 @@ func VerifBroadcastMembership() {
 	b.Close()
 	zzverif.Cover("broadcast_membership_done")
 }
+
+// Close from two goroutines at once while values are still on their way to a subscriber: whichever Close call returns,
+// nothing is delivered to anybody after it has returned (each call waits for the deliveries in flight, not only the
+// one that closed first), and a Close issued afterwards returns at once. Deliveries are counted exactly, as the number
+// of values in the subscriber's (large enough, never read) channel, so a delivery that happened before a Close
+// returned is never mistaken for a later one.
+//
+//verif:harness prop=C11 name=broadcast_concurrent_close threads=7 sched=delay preempt=3 t_preempt=4 unwind=14 witness=lenient
+func VerifBroadcastConcurrentClose() {
+	b := New[vMsg]()
+	ch := make(chan vMsg, 8)
+	b.Subscribe(context.Background(), ch)
+	b.Broadcast(vMsg{1, 1})
+	b.Broadcast(vMsg{2, 2})
+	var atReturn [2]int
+	done := make(chan struct{}, 2)
+	for i := 0; i < 2; i++ {
+		i := i
+		go func() {
+			zzverif.MustFinish()
+			b.Close()
+			zzverif.Ghost(func() { atReturn[i] = len(ch) })
+			done <- struct{}{}
+		}()
+	}
+	<-done
+	<-done
+	zzverif.WaitQuiescent()
+	zzverif.Assert(len(ch) == atReturn[0] && len(ch) == atReturn[1], "nothing_delivered_after_a_close_returned")
+	b.Close()
+	b.Broadcast(vMsg{3, 3})
+	zzverif.WaitQuiescent()
+	zzverif.Assert(len(ch) == atReturn[0], "nothing_delivered_after_a_close_returned")
+	zzverif.Cover("broadcast_concurrent_close_done")
+}
